@@ -8,6 +8,7 @@ import (
 	"runtime"
 	"strings"
 	"sync"
+	"sync/atomic"
 	"testing"
 
 	"github.com/aml-org/amf-custom-validator/pkg"
@@ -31,7 +32,13 @@ type c10Case struct {
 	Goroutines [][]c10Op `json:"goroutines"`
 	MaxProcs   int       `json:"gomaxprocs"`
 	Configs    []repCfg  `json:"configs"`
+	// ColdFirst: the concurrent phase runs before the serial baseline, on profile texts this process has never seen
+	// (a run-unique comment is appended; the shared handles are compiled from yet another spelling), so that
+	// whatever a first compilation of a text initialises is initialised under concurrency
+	ColdFirst bool `json:"cold_first,omitempty"`
 }
+
+var c10Nonce int64
 
 var c10Kinds = []string{"Validate", "ValidateWithConfiguration", "CompileProfile", "ValidateCompiled", "ValidateCompiledWithConfiguration", "CompileThenValidate"}
 
@@ -86,6 +93,7 @@ func genC10(t *rapid.T) c10Case {
 		cfg.LexIri = fmt.Sprintf("file:///schema-%d/lexical.yaml", i)
 		c.Configs = append(c.Configs, cfg)
 	}
+	c.ColdFirst = rapid.Bool().Draw(t, "coldFirst")
 	ng := rapid.IntRange(2, 8).Draw(t, "goroutines")
 	c.MaxProcs = rapid.SampledFrom([]int{1, 2, 4, 16}).Draw(t, "gomaxprocs")
 	for g := 0; g < ng; g++ {
@@ -192,54 +200,78 @@ func raceReports() (text string, sig string) {
 	return text, "race:" + strings.Join(fs, "+")
 }
 
-func decideC10(c c10Case) ev.Verdict {
-	// serial baseline, each operation alone
-	shared := make([]*rego.PreparedEvalQuery, len(c.Profiles))
-	for i, p := range c.Profiles {
-		q, cc := compileProfile(p)
-		if cc.Panic != "" {
-			return ev.Violation("c10-panic", "compile panicked: %s", cc.Panic)
-		}
-		if !cc.failed() {
-			shared[i] = q
-		}
-	}
-	want := make([][]c10Result, len(c.Goroutines))
-	for g, ops := range c.Goroutines {
-		for _, op := range ops {
-			want[g] = append(want[g], c10Run(op, &c, shared))
-		}
-	}
-	if txt, sig := raceReports(); txt != "" {
-		return ev.Violation(sig, "race reported during the SERIAL baseline (background goroutine?):\n%s", trunc(txt, 3000))
-	}
+func decideC10(orig c10Case) ev.Verdict {
 	rounds := 1
 	if os.Getenv("VERIF_REPLAY") != "" {
 		rounds = 50
 	}
-	old := runtime.GOMAXPROCS(c.MaxProcs)
+	old := runtime.GOMAXPROCS(orig.MaxProcs)
 	defer runtime.GOMAXPROCS(old)
 	for round := 0; round < rounds; round++ {
-		got := make([][]c10Result, len(c.Goroutines))
-		var wg sync.WaitGroup
-		start := make(chan struct{})
-		for g, ops := range c.Goroutines {
-			wg.Add(1)
-			go func(g int, ops []c10Op) {
-				defer wg.Done()
-				<-start
-				for _, op := range ops {
-					for y := 0; y < op.Yield; y++ {
-						runtime.Gosched()
-					}
-					got[g] = append(got[g], c10Run(op, &c, shared))
-				}
-			}(g, ops)
+		c := orig
+		handleTexts := orig.Profiles
+		if orig.ColdFirst {
+			nonce := atomic.AddInt64(&c10Nonce, 1)
+			c.Profiles, handleTexts = nil, nil
+			for _, p := range orig.Profiles {
+				c.Profiles = append(c.Profiles, fmt.Sprintf("%s\n# run %d-%d\n", p, os.Getpid(), nonce))
+				handleTexts = append(handleTexts, fmt.Sprintf("%s\n# handle %d-%d\n", p, os.Getpid(), nonce))
+			}
 		}
-		close(start)
-		wg.Wait()
+		shared := make([]*rego.PreparedEvalQuery, len(c.Profiles))
+		for i, p := range handleTexts {
+			q, cc := compileProfile(p)
+			if cc.Panic != "" {
+				return ev.Violation("c10-panic", "compile panicked: %s", cc.Panic)
+			}
+			if !cc.failed() {
+				shared[i] = q
+			}
+		}
+		// each operation alone
+		serial := func() [][]c10Result {
+			want := make([][]c10Result, len(c.Goroutines))
+			for g, ops := range c.Goroutines {
+				for _, op := range ops {
+					want[g] = append(want[g], c10Run(op, &c, shared))
+				}
+			}
+			return want
+		}
+		concurrent := func() [][]c10Result {
+			got := make([][]c10Result, len(c.Goroutines))
+			var wg sync.WaitGroup
+			start := make(chan struct{})
+			for g, ops := range c.Goroutines {
+				wg.Add(1)
+				go func(g int, ops []c10Op) {
+					defer wg.Done()
+					<-start
+					for _, op := range ops {
+						for y := 0; y < op.Yield; y++ {
+							runtime.Gosched()
+						}
+						got[g] = append(got[g], c10Run(op, &c, shared))
+					}
+				}(g, ops)
+			}
+			close(start)
+			wg.Wait()
+			return got
+		}
+		var want, got [][]c10Result
+		if !orig.ColdFirst {
+			want = serial()
+			if txt, sig := raceReports(); txt != "" {
+				return ev.Violation(sig, "race reported during the SERIAL baseline (background goroutine?):\n%s", trunc(txt, 3000))
+			}
+		}
+		got = concurrent()
 		if txt, sig := raceReports(); txt != "" {
 			return ev.Violation(sig, "the race detector reported a data race while %d goroutines ran %s\n%s", len(c.Goroutines), describeOps(c), trunc(txt, 4000))
+		}
+		if orig.ColdFirst {
+			want = serial()
 		}
 		for g := range got {
 			for i := range got[g] {
@@ -256,6 +288,7 @@ func decideC10(c c10Case) ev.Verdict {
 			}
 		}
 	}
+	c := orig
 	compilers, sharers := 0, map[int]int{}
 	for _, ops := range c.Goroutines {
 		comp := false
@@ -282,6 +315,9 @@ func decideC10(c c10Case) ev.Verdict {
 		}
 	}
 	labels := []string{fmt.Sprintf("goroutines:%d", len(c.Goroutines)), fmt.Sprintf("gomaxprocs:%d", c.MaxProcs)}
+	if c.ColdFirst {
+		labels = append(labels, "concurrent-phase-first-on-unseen-texts")
+	}
 	if compilers >= 2 {
 		labels = append(labels, "concurrent-compilations")
 	}
